@@ -247,6 +247,15 @@ def symptom(case, exp, r, recs):
     return None
 
 
+def _counterfactual(cf):
+    """the verdict of the case with the known trigger taken out, if that still fails (None if it holds or cannot be decided)"""
+    v = judge(cf)
+    if v[0] == "violated":
+        v[2]["note"] = "signed on the case without the trigger of the listed finding, which fails as well"
+        return v
+    return None
+
+
 def judge(case):
     line, exp, r, recs = run_case(case)
     sym = symptom(case, exp, r, recs)
@@ -258,15 +267,26 @@ def judge(case):
         return ("inconclusive", "timeout", res)
     subs = [p for p in case["parts"] if p[0] == "sub"]
     parts0 = case["parts"]
-    # known mechanisms outside substitution proper, decided on the shape of the case:
+    # known mechanisms outside substitution proper, decided on the shape of the case - and on the counterfactual: the same
+    # case without the shape must hold, otherwise something else is (also) wrong and that is what gets signed
     if case["ctx"] in ("unq", "here", "assign") and any(
             p[1]["inner"] == "quoted-args" and any(set(INNER_DECOYS[j][0]) & set("()\\") for j in p[1]["decoys"]) for p in subs):
         # outside double quotes the *line* tokenizer finds the end of `$(...)` by counting parentheses without
         # looking at quotes or escapes inside it (inside double quotes find_matching_paren does it properly)
+        safe = [j for j in range(len(INNER_DECOYS)) if not (set(INNER_DECOYS[j][0]) & set("()\\"))]
+        cf = dict(case, parts=[(k, dict(v, decoys=[j if j in safe else safe[j % len(safe)] for j in v["decoys"]]) if k == "sub" and v.get("decoys") else v)
+                               for k, v in case["parts"]])
+        v2 = _counterfactual(cf)
+        if v2 is not None:
+            return v2
         return ("violated", "C11:outside-double-quotes:inner-command-text-with-quoted-or-escaped-parenthesis-or-backslash:%s" % sym, res)
     if parts0[0][0] == "sub" and parts0[0][1]["form"] == "backquote" and len(parts0) > 1 and case["ctx"] in ("unq", "here", "assign"):
         # the tokenizer takes a word that *starts* with a backquote as a whole-token substitution and
         # glues the text after the closing backquote onto the command
+        cf = dict(case, parts=[(parts0[0][0], dict(parts0[0][1], form="dollar"))] + list(parts0[1:]))
+        v2 = _counterfactual(cf)
+        if v2 is not None:
+            return v2
         return ("violated", "C11:backquote:word-starts-with-backquote-and-continues:%s" % sym, res)
     if case["ctx"] == "unq" and any(p[1]["cls"] == "operators" for p in subs):
         return ("violated", "C11:unq:output-with-operator-characters-is-reread-as-syntax:%s" % sym, res)
